@@ -237,6 +237,9 @@ func genC14Structured(r *Rng, sc *Scenario) {
 			}
 		}
 		key := r.Pick(iniKeySpellings(oi))
+		if oi.O.IniName != "" && key == oi.O.IniName && r.Bool() {
+			key = strings.ToUpper(key) // ini-name is matched case-insensitively
+		}
 		for j := 0; j < reps; j++ {
 			e := C14Entry{Opt: oi.Path, Kind: k, Section: sect, Key: key}
 			val := iniValText(r, oi.O)
@@ -260,6 +263,14 @@ func genC14Structured(r *Rng, sc *Scenario) {
 					}
 				case 2:
 					e.Quoted = true
+				case 3:
+					// characters that look like syntax but are plain data inside a value
+					val2 := r.Pick([]string{"eq=sign", "semi;colon", "hash#mark", "a=b=c", "x [y]", "back\\slash", "two  blanks", "a;b#c=d", "col:on"})
+					if isMapKind(k) {
+						val = strings.SplitN(val, ":", 2)[0] + ":" + val2
+					} else if k != "um" {
+						val = val2
+					}
 				}
 				if len(oi.O.Choices) > 0 {
 					val = r.Pick(oi.O.Choices)
